@@ -10,11 +10,17 @@ REGISTRY = Registry()
 TRUSTED = ["library models: int & mask on unbounded ints (exact div/mod encoding), str.replace on constants, "
            "bytes.strip/split(b': ') as uninterpreted functions the io-record grammar is stated with",
            "environment model contracts/procenv.py"]
-ASSUMPTIONS = ["/proc/<pid>/io grammar: a line holding exactly one ': ' carries a decimal value (kernel "
+ASSUMPTIONS = ["SHAPE BOUND of the open_files contract: descriptor tables of 0..2 entries (3 in the thorough tier); per "
+               "descriptor all link/fdinfo outcomes and unconstrained paths, positions, flag words; fdinfo's first two lines "
+               "are 'pos:\\t<decimal>' and 'flags:\\t<octal>' (kernel fs/proc/fd.c seq_show)",
+               "/proc/<pid>/io grammar: a line holding exactly one ': ' carries a decimal value (kernel "
                "fs/proc/base.c do_io_accounting); other lines are arbitrary (blank, malformed)",
                "O_* flag values are those of the running platform's os module (Linux generic: O_APPEND=0o2000)"]
-NOT_COVERED = ["open_files(): the descriptor scan itself (listdir/readlink/fdinfo loop) is covered by a bounded sweep "
-               "over generated descriptor tables, not proved"]
+NOT_COVERED = ["open_files() for descriptor tables larger than the shape bound of its contract (n <= 2 quick, 3 thorough): the "
+               "loop body is executed per descriptor with no state carried between iterations except retlist/hit_enoent, "
+               "which is the (not machine-checked) argument for larger tables; the bounded sweep over generated descriptor "
+               "tables on a fake procfs remains as a second check",
+               "open_files() through wrap_exceptions: the decorator's translation is proved once for the other readers (C03)"]
 ENV = dict(BASE_ENV)
 
 
@@ -143,6 +149,214 @@ REGISTRY.add(Contract(
     raises={"NoSuchProcess": None, "ZombieProcess": None, "AccessDenied": None},
     inline=["_is_zombie", "_raise_if_zombie"], replay=None,
     note="counts all descriptors"))
+
+
+# --- open_files: the descriptor scan under contract ----------------------------------------------------------------------
+# The real method body is executed for a descriptor table of N entries (cfg n: 0, 1, 2 - the table's SHAPE is the bound)
+# with, per descriptor, every outcome of readlink() (regular file at an absolute path / absolute path to something else /
+# non-absolute target such as 'pipe:[5]' (also one that happens to name a regular file) / ENOENT / ESRCH / EINVAL / ENAMETOOLONG / any other OSError), every outcome of
+# opening fdinfo (ok / ENOENT / ESRCH), and SYMBOLIC target paths, positions and flag words.
+import errno as _errno
+from vc.interp import PyRaise as _PyRaise
+
+RL = ["reg", "notreg", "rel", "relreg", "ENOENT", "ESRCH", "EINVAL", "ENAMETOOLONG", "OTHER"]
+FD_NAMES = ["3", "17", "255"]
+
+
+class _FdInfo:
+    """fdinfo file object: `with open_binary(..) as f`, two readline() calls -> 'pos:\t<dec>' and 'flags:\t<oct>'"""
+
+    def __init__(self, k, ptok, ftok):
+        self.k, self.toks, self.n = k, [(b"pos:", ptok), (b"flags:", ftok)], 0
+
+    def vc_enter(self, it):
+        return self
+
+    def vc_exit(self, it, exc):
+        return None
+
+    def vc_getattr(self, it, name):
+        if name == "readline":
+            def rl(it2):
+                if self.n >= 2:
+                    raise Unsupported("third readline() on fdinfo: outside the file model")
+                tk = self.toks[self.n]
+                self.n += 1
+                return _Line(tk)
+            return EnvFunc("readline", rl)
+        if name == "close":
+            return EnvFunc("close", lambda it2: None)
+        raise Unsupported(f"fdinfo file attribute {name}")
+
+
+class _Line:
+    def __init__(self, tk):
+        self.tk = tk
+
+    def vc_getattr(self, it, name):
+        if name == "split":
+            return EnvFunc("split", lambda it2, *a: [self.tk[0], self.tk[1]])
+        raise Unsupported(f"fdinfo line method {name}")
+
+
+def setup_of(it, cfg):
+    n = cfg["n"]
+    proc = linux_process(it)
+    fds = FD_NAMES[:n]
+    rl = [RL[it.choose(len(RL), f"readlink outcome of fd {fd}")] for fd in fds]
+    paths, ptoks, ftoks = [], [], []
+    vals = []
+    for k, fd in enumerate(fds):
+        pth = it.fresh(f"path{k}", "String", "str")
+        if rl[k] in ("reg", "notreg"):
+            it.assume(smt.app("str.prefixof", "Bool", S("/"), pth))
+        elif rl[k] in ("rel", "relreg"):
+            it.assume(Not(smt.app("str.prefixof", "Bool", S("/"), pth)))
+        pt, ft = it.fresh(f"postok{k}", "String", "bytes"), it.fresh(f"flagtok{k}", "String", "bytes")
+        it.assume(lib.in_re(pt, lib.digits_re()))
+        it.assume(lib.in_re(ft, '(re.+ (re.range "0" "7"))'))
+        paths.append(pth), ptoks.append(pt), ftoks.append(ft)
+        vals += [pth, pt, ft]
+    other_errno = it.fresh("other_errno", "Int")
+    it.assume(And(*[Not(Eq(other_errno, I(e))) for e in (_errno.EINVAL, _errno.ENAMETOOLONG, _errno.ENOENT, _errno.ESRCH)]))
+    vals.append(other_errno)
+    gh = it.ctx.ghost
+    gh["fi"], gh["alive_calls"], gh["alive_outcome"] = {}, 0, None
+
+    def listdir(it2, path):
+        it2.ctx.log.append(("listdir", path_text_(path)))
+        return list(fds)
+
+    def path_text_(path):
+        from .procenv import path_text
+        return path_text(path)
+
+    def which(path, middle):
+        txt = path_text_(path)
+        for k, fd in enumerate(fds):
+            if txt.endswith(f"/{middle}/{fd}"):
+                return k
+        raise Unsupported(f"access to {txt}: not a descriptor of the table")
+
+    def readlink(it2, path):
+        k = which(path, "fd")
+        it2.ctx.log.append(("readlink", k))
+        o = rl[k]
+        if o in ("reg", "notreg", "rel", "relreg"):
+            return paths[k]
+        if o == "ENOENT":
+            raise _PyRaise(ExcVal(FileNotFoundError, (), {"errno": I(_errno.ENOENT)}))
+        if o == "ESRCH":
+            raise _PyRaise(ExcVal(ProcessLookupError, (), {"errno": I(_errno.ESRCH)}))
+        if o == "OTHER":
+            raise _PyRaise(ExcVal(OSError, (), {"errno": other_errno}))
+        raise _PyRaise(ExcVal(OSError, (), {"errno": I(getattr(_errno, o))}))
+
+    def isfile_strict(it2, path):
+        for k in range(n):
+            if path is paths[k]:
+                return rl[k] in ("reg", "relreg")      # relreg: a non-absolute target that happens to name a regular file
+        raise Unsupported("isfile_strict on something that is not a link target of the table")
+
+    def open_binary(it2, path, *a, **kw):
+        k = which(path, "fdinfo")
+        o = ["ok", "ENOENT", "ESRCH"][it2.choose(3, f"fdinfo outcome of fd {fds[k]}")]
+        gh["fi"][k] = o
+        if o == "ENOENT":
+            raise _PyRaise(ExcVal(FileNotFoundError, (), {"errno": I(_errno.ENOENT)}))
+        if o == "ESRCH":
+            raise _PyRaise(ExcVal(ProcessLookupError, (), {"errno": I(_errno.ESRCH)}))
+        return _FdInfo(k, ptoks[k], ftoks[k])
+
+    def alive(it2):
+        gh["alive_calls"] += 1
+        o = ["ok", "NoSuchProcess", "ZombieProcess"][it2.choose(3, "_raise_if_not_alive outcome")]
+        gh["alive_outcome"] = o
+        if o != "ok":
+            from vc.interp import PS_EXC
+            raise _PyRaise(ExcVal(PS_EXC[o][0], (), {"pid": proc.attrs["pid"]}))
+
+    for m in ("_pslinux",):
+        it.env_over[f"{m}.readlink"] = EnvFunc("readlink", readlink)
+        it.env_over[f"{m}.isfile_strict"] = EnvFunc("isfile_strict", isfile_strict)
+        it.env_over[f"{m}.open_binary"] = EnvFunc("open_binary", open_binary)
+    it.env_over["os.listdir"] = EnvFunc("os.listdir", listdir)
+    proc.attrs["_raise_if_not_alive"] = EnvFunc("_raise_if_not_alive", alive)
+    return {"args": {"self": proc},
+            "spec": {"fds": fds, "rl": rl, "paths": paths, "ptoks": ptoks, "ftoks": ftoks, "gh": gh}, "values": vals}
+
+
+def _mode_of(it, flags):
+    acc, app = h_acc(it, flags), h_app(it, flags)
+    a = it.term(acc)
+    return Ite(Eq(a, I(0)), S("r"), Ite(Eq(a, I(1)), Ite(app, S("a"), S("w")), Ite(app, S("a+"), S("r+"))))
+
+
+def _hit(env):
+    rl, fi = env["rl"], env["gh"]["fi"]
+    return any(o in ("ENOENT", "ESRCH") for o in rl) or any(o != "ok" for o in fi.values())
+
+
+def p_of_rows(it, env):
+    """one row per descriptor whose link target is an absolute path to a regular file and whose fdinfo could be read, in
+    directory order: (target, int(fd name), decimal position, mode of the flag word, octal flag word)"""
+    res, rl, fi = env["result"], env["rl"], env["gh"]["fi"]
+    want = []
+    for k, fd in enumerate(env["fds"]):
+        if rl[k] == "reg":
+            if k not in fi:
+                return B(False)          # a regular file whose fdinfo was never opened
+            if fi[k] == "ok":
+                want.append(k)
+    if not isinstance(res, list) or len(res) != len(want):
+        return B(False)
+    it.ctx.uf("py_intval", ["String"], "Int")
+    it.ctx.uf("py_int8", ["String"], "Int")
+    cl = []
+    for row, k in zip(res, want):
+        flags = smt.app("py_int8", "Int", env["ftoks"][k])
+        f = getattr(row, "attrs", None) or {}
+        try:
+            path, fdn, pos, mode, fl = (it.getattr_(row, a) for a in ("path", "fd", "position", "mode", "flags"))
+        except Exception:
+            return B(False)
+        cl += [lift(lib.equal(it, path, env["paths"][k])), lift(lib.equal(it, fdn, int(env["fds"][k]))),
+               lift(lib.equal(it, pos, smt.app("py_intval", "Int", env["ptoks"][k]))),
+               lift(lib.equal(it, fl, flags)), lift(lib.equal(it, mode, _mode_of(it, flags)))]
+    return And(*cl) if cl else B(True)
+
+
+def p_of_alive(it, env):
+    """the liveness check runs exactly when some descriptor vanished under the scan (ENOENT/ESRCH), once, after the scan"""
+    gh = env["gh"]
+    return B(gh["alive_calls"] == (1 if _hit(env) else 0))
+
+
+def p_of_scan(it, env):
+    """every descriptor of the listing is looked at (readlink once each, in order)"""
+    got = [e[1] for e in env["log"] if e[0] == "readlink"]
+    return B(got == list(range(len(env["fds"]))))
+
+
+def x_of_oserror(it, env):
+    """only an unexpected OSError of readlink() propagates, and only from the first such descriptor"""
+    return B("OTHER" in env["rl"])
+
+
+def x_of_gone(it, env):
+    return B(_hit(env) and env["gh"]["alive_calls"] == 1 and env["gh"]["alive_outcome"] in ("NoSuchProcess", "ZombieProcess"))
+
+
+OFS = Contract(
+    "C14", LINUX_PY, "Process.open_files", name="_pslinux.Process.open_files (descriptor scan)", setup=setup_of, env=ENV,
+    configs=[{"n": 0}, {"n": 1}, {"n": 2}] + ([{"n": 3}] if os.environ.get("VERIF_TIER") == "thorough" else []),
+    ensures=[p_of_rows, p_of_alive, p_of_scan],
+    raises={"OSError": x_of_oserror, "NoSuchProcess": x_of_gone, "ZombieProcess": x_of_gone},
+    canaries=[], replay=None, max_paths=60000, parallel=True,
+    note="the undecorated method body: rows exactly for regular files at absolute paths with readable fdinfo; vanished "
+         "descriptors are skipped and trigger one liveness check; EINVAL / ENAMETOOLONG links are skipped; other errors "
+         "propagate")
+REGISTRY.add(OFS)
 
 
 # --- open_files: bounded stand-in ------------------------------------------------------------------
